@@ -130,7 +130,9 @@ class World:
         # the same authentication behaviour (examples/http_digest.py sets the
         # algorithm before the type)
         World.built += 1
-        settings = [("auth_type", "Digest"), ("auth_algorithm", alg),
+        settings = [("auth_type", ("Digest", "digest", "DIGEST",
+                                   "dIGEST")[World.built % 4]),
+                    ("auth_algorithm", alg),
                     ("auth_qop", qop), ("auth_timeout", timeout)]
         shift = World.built % 4
         for name, value in settings[shift:] + settings[:shift]:
@@ -636,9 +638,15 @@ def scenarios(world, rng, quick, base_t, big=20000):
             foreign, _ = world.challenge("other agent", base_t)
             password = USERS[world.realm][user]
             uri = request_uri(path, query)
-            fields = client_fields(hf, world.alg, world.qop, user, world.realm,
-                                   password, chal["nonce"], chal["opaque"],
-                                   method, uri)
+            # nc is eight hex digits (RFC 7616): the tenth and later
+            # requests on one nonce, cnonce of any token text
+            fields = client_fields(
+                hf, world.alg, world.qop, user, world.realm, password,
+                chal["nonce"], chal["opaque"], method, uri,
+                nc=("00000001", "0000000a", "000000ff", "0000beef",
+                    "00000010")[variant % 5],
+                cnonce=("0a4f113b", "f2/wE4q74E6zIJEtWaHKaf5wv/H5QzzpXusqGem"
+                        "xURZJ", "x")[variant % 3])
             now = base_t + 1000000
             yield ("correct", method, path, query, agent_env,
                    serialize(fields), now)
